@@ -31,15 +31,29 @@ pub fn bool_const(ctx: &Ctx, token: Token) -> BoolConst {
 }
 pub type StrConst = ValSpan<String>;
 pub fn str_const(ctx: &Ctx, token: Token) -> StrConst {
-    StrConst::new(
-        token
-            .value[1..token.value.len() - 1]
-            .replace(r#"\'"#, r#"'"#)
-            .replace(r#"\\"#, r#"\"#)
-            .replace(r#"\n"#, "\n")
-            .replace(r#"\t"#, "\t"),
-        Some(ctx.span()),
-    )
+    // Escape sequences are replaced in a single pass: `\\n` is a backslash
+    // followed by `n`, not a new line.
+    let raw = &token.value[1..token.value.len() - 1];
+    let mut value = String::with_capacity(raw.len());
+    let mut chars = raw.chars();
+    while let Some(c) = chars.next() {
+        if c == '\\' {
+            match chars.next() {
+                Some('\'') => value.push('\''),
+                Some('\\') => value.push('\\'),
+                Some('n') => value.push('\n'),
+                Some('t') => value.push('\t'),
+                Some(other) => {
+                    value.push('\\');
+                    value.push(other);
+                }
+                None => value.push('\\'),
+            }
+        } else {
+            value.push(c);
+        }
+    }
+    StrConst::new(value, Some(ctx.span()))
 }
 pub type Annotation = ValSpan<String>;
 pub fn annotation(ctx: &Ctx, token: Token) -> Annotation {
